@@ -406,6 +406,17 @@ var c19SetCoins = map[int]*c19Coin{
 var c19SetValue = map[int]int64{1: 1, 2: 3, 3: 5}
 var c19SetAge = map[int]int64{1: 2, 2: 3, 3: 0}
 
+// coins 161..163: value-ages of 6e18, 5.4e18 and 4e18 (two of them already exceed the int64 range
+// together; Go's arithmetic wraps, and a total that wraps on the way up comes back on the way down)
+func init() {
+	for i, vc := range [][2]int64{{2_000_000_000_000_000, 3000}, {1_800_000_000_000_000, 3000}, {2_000_000_000_000_000, 2000}} {
+		id := 161 + i
+		c19SetCoins[id] = c19NewCoin(id, vc[0], vc[1])
+		c19SetValue[id] = vc[0]
+		c19SetAge[id] = vc[0] * vc[1]
+	}
+}
+
 // coins 4..160 of the long-history family: pairwise different values (1000+id) and confirmations
 func init() {
 	for id := 4; id <= 160; id++ {
@@ -1083,6 +1094,31 @@ func runC19(c *mc.Ctx) {
 		per += s
 	}
 	nHist := per * int64(len(c19Inits))
+	// coins whose value-ages do not fit the int64 range together: every sequence of <= 6 operations
+	// over {push of three such coins, push of a small coin, pop, shift} from the empty set; the totals
+	// are compared with the (wrapping) sums over the contents after every operation
+	{
+		menu := []string{"push161", "push162", "push163", "push1", "pop", "shift"}
+		var hs []c19Hist
+		var rec func(ops []string)
+		rec = func(ops []string) {
+			if len(ops) > 0 {
+				hs = append(hs, c19Hist{Ops: append([]string{}, ops...)})
+			}
+			if len(ops) == mc.Pick(c, 5, 6) {
+				return
+			}
+			for _, m := range menu {
+				rec(append(ops, m))
+			}
+		}
+		rec(nil)
+		c.Space("coin-set histories with coins whose value-ages exceed the int64 range together", int64(len(hs)))
+		c.ParFor(int64(len(hs)), func(w *mc.W, i int64) {
+			w.State()
+			c19RunHist(w, hs[i], 0)
+		})
+	}
 	// LONG histories: sets of up to ~80 distinct coins.  A container that keeps its coins in a ring or a
 	// slice with spare capacity behaves differently exactly when it grows or wraps, which a set of at
 	// most ten coins never does.  Shape: NewCoinSet(n0 coins); a shifts; b pushes; c pops; d pushes;
